@@ -402,6 +402,13 @@ func genConc(t *sim.Tape, fsKinds []string, maxClients, maxOps int, adversarial 
 
 	cfg.Progs = make([][]fsx.Op, n)
 
+	if cfg.Pair && t.Chance(400) {
+		// the classic races, by design rather than by luck: two calls built around one name of the focus directory.
+		pairTemplate(t, cfg)
+
+		return cfg
+	}
+
 	for ci := 0; ci < n; ci++ {
 		for j := 0; j < maxOps && (j == 0 || (!cfg.Pair && t.Chance(600)) || (cfg.Pair && j == 1 && t.Chance(250))); j++ {
 			cfg.Progs[ci] = append(cfg.Progs[ci], genConcOp(t, cfg, adversarial, fmt.Sprintf("<%d.%d>", ci, j)))
@@ -409,6 +416,57 @@ func genConc(t *sim.Tape, fsKinds []string, maxClients, maxOps int, adversarial 
 	}
 
 	return cfg
+}
+
+// pairTemplate fills a two-client program from a table of conflicting pairs: D the focus directory, e1 and e2 two
+// files in it, n a free name in it, sub a directory below it (or next to it).
+func pairTemplate(t *sim.Tape, cfg *concCfg) {
+	type names struct{ D, e1, e2, n, other string }
+
+	nm := []names{
+		{}, {"/a", "/a/f", "/a/e", "/a/x", "/b"}, {"/a/d", "/a/d/h", "/a/d/i", "/a/d/x", "/b"}, {"/b", "/b/g", "/b/j", "/b/x", "/a/d"},
+	}[cfg.Focus]
+
+	excl := os.O_RDWR | os.O_CREATE | os.O_EXCL
+	query := func() fsx.Op {
+		return []fsx.Op{
+			{K: "Stat", P: nm.e1}, {K: "Lstat", P: nm.e1}, {K: "OpenFile", P: nm.e1, Flag: os.O_RDONLY, H: 1}, {K: "Truncate", P: nm.e1, Size: 1},
+		}[t.Int(4)]
+	}
+	creator := func(uniq string) fsx.Op {
+		return []fsx.Op{
+			{K: "Mkdir", P: nm.n, Perm: 0o755}, {K: "OpenFile", P: nm.n, Flag: excl, Perm: 0o644, H: 1}, {K: "Link", P: nm.e1, Q: nm.n},
+			{K: "Rename", P: nm.e2, Q: nm.n}, {K: "OpenFile", P: nm.n, Flag: os.O_WRONLY | os.O_CREATE, Perm: 0o644, H: 1}, {K: "MkdirAll", P: nm.n, Perm: 0o755},
+		}[t.Int(6)]
+	}
+
+	var a, b fsx.Op
+
+	cfg.PreOpen = []string{"", ""}
+
+	switch t.Int(6) {
+	case 0: // a query on a name while another file is renamed onto it
+		a, b = query(), fsx.Op{K: "Rename", P: nm.e2, Q: nm.e1}
+	case 1: // two creators of one name
+		a, b = creator("<0.0>"), creator("<1.0>")
+	case 2: // a name goes away while it is used
+		a = []fsx.Op{{K: "Remove", P: nm.e1}, {K: "RemoveAll", P: nm.e1}, {K: "RemoveAll", P: nm.D}}[t.Int(3)]
+		b = []fsx.Op{{K: "Rename", P: nm.e1, Q: nm.n}, {K: "Link", P: nm.e1, Q: nm.n}, query(), {K: "Remove", P: nm.e1}}[t.Int(4)]
+	case 3: // two writers on one file through their own handles
+		cfg.PreOpen = []string{nm.e1, nm.e1}
+		a = fsx.Op{K: "FWrite", H: 0, Data: "<0.0>"}
+		b = []fsx.Op{{K: "FWrite", H: 0, Data: "<1.0>"}, {K: "Truncate", P: nm.e1, Size: 0}, {K: "FTruncate", H: 0, Size: 1}}[t.Int(3)]
+	case 4: // a directory is listed through a handle while its entries change
+		cfg.PreOpen = []string{nm.D, ""}
+		a = fsx.Op{K: []string{"FReadDir", "FReaddirnames"}[t.Int(2)], H: 0, N: -1}
+		b = []fsx.Op{{K: "Link", P: nm.e1, Q: nm.n}, {K: "Rename", P: nm.e1, Q: nm.n}, {K: "Remove", P: nm.e1}, creator("<1.0>")}[t.Int(4)]
+	default: // two directories moved into each other
+		a = fsx.Op{K: "Rename", P: nm.D, Q: nm.other + "/x"}
+		b = fsx.Op{K: "Rename", P: nm.other, Q: nm.D + "/y"}
+	}
+
+	cfg.Progs[0] = []fsx.Op{a}
+	cfg.Progs[1] = []fsx.Op{b}
 }
 
 // concRun is the outcome of one concurrent simulation.
